@@ -119,7 +119,7 @@ SEEDS = [
   "edits": [e(X, '''				if _, err := writableFile.WriteAt(emptyBlock, fileOff); err != nil {
 					return fmt.Errorf("could not write empty directory block: %w", err)
 				}
-				continue''', '''				_ = fileOff
+				continue''', '''				_, _ = fileOff, emptyBlock
 				break''')]},
  {"name": "c04-chown-touches-mode", "properties": ["C04"], "expect": "C04-b|",
   "edits": [e(X, '''	if uid != -1 {
@@ -145,4 +145,12 @@ SEEDS = [
 		requiredBlocks = allocatedBlocks
 	}
 """, "")]},
+ {"name": "c05-fast-symlink-limit-inclusive-in-symlink", "properties": ["C05"], "expect": "C05-h|",
+  "edits": [e(X, "	if len(oldpath) >= 60 {", "	if len(oldpath) > 60 {", 2)]},
+ {"name": "c05-fast-symlink-limit-inclusive-in-decoder", "properties": ["C05"], "expect": "C05-h|",
+  "edits": [e("filesystem/ext4/inode.go", "if fileType == fileTypeSymbolicLink && fileSizeNum < 60 {", "if fileType == fileTypeSymbolicLink && fileSizeNum <= 60 {")]},
+ {"name": "c05-refactor-symlink-limit-named-constant", "properties": ["C05"], "silent": True, "expect": "",
+  "edits": [e(X, "	if len(oldpath) >= 60 {", "	if len(oldpath) > 59 {", 2)]},
+ {"name": "c04-new-extent-fileblock-from-request-only", "properties": ["C04"], "expect": "C04-h|",
+  "edits": [e(X, "			extentToAdd.fileBlock = uint32(allocated)", "			extentToAdd.fileBlock = uint32(newBlocks - extraBlockCount)")]},
 ]
